@@ -23,12 +23,14 @@ one() {
     [ $own -gt 0 ] && v=DETECTED || v=MISSED
   else
     [ $tot -eq 0 ] && v=QUIET || v=FALSE-ALARM
+    # false alarms of the checker that are known and recorded as open (DESIGN §6.3) are listed as such
+    if [ $v = FALSE-ALARM ] && grep -q '"open_false_alarm": true' $d/meta.json 2>/dev/null; then v=OPEN-FALSE-ALARM; fi
   fi
   echo "$kind $id $v own=$own total=$tot rules: $rules"
   rm -rf $T
 }
 export -f one
-ls -d seeded/C* benign/C* benign/R2-* benign/R3-* benign/R4-* benign/R5-* benign/R6-* | xargs -P $J -I{} bash -c 'one {}' | sort > tools/regress.out
+ls -d seeded/C* benign/C* benign/R2-* benign/R3-* benign/R4-* benign/R5-* benign/R6-* benign/R7-* | xargs -P $J -I{} bash -c 'one {}' | sort > tools/regress.out
 grep -c DETECTED tools/regress.out | sed 's/^/seeds detected: /'
 grep -c QUIET tools/regress.out | sed 's/^/benign quiet: /'
 grep 'MISSED\|FALSE-ALARM\|STALE\|ERROR' tools/regress.out
